@@ -64,10 +64,18 @@ def describe_item(ctx: Ctx, fn: FuncInfo, expr: ast.AST, owner: Optional[ClassIn
 
 
 def prov(ctx: Ctx, fn: FuncInfo, expr: Optional[ast.AST]) -> str:
+    """Where a value comes from: locals and guard helpers inlined, named integer constants folded."""
     if expr is None:
         return ""
-    defs = ctx.defs(fn)
-    return norm(defs.expand(strip_casts(expr)))
+    exp = ctx.xexpand(fn, strip_casts(expr), depth=2)
+    if isinstance(exp, (ast.Name, ast.Attribute)):
+        try:
+            val = ctx.r.const(fn.module, exp, fn.cls)
+            if isinstance(val, int) and not isinstance(val, bool):
+                return str(val)
+        except Exception:  # pylint: disable=broad-except
+            pass
+    return norm(exp)
 
 
 def sequence_items(ctx: Ctx, fn: FuncInfo, call: ast.Call, owner: Optional[ClassInfo] = None) -> List[Item]:
@@ -80,6 +88,19 @@ def sequence_items(ctx: Ctx, fn: FuncInfo, call: ast.Call, owner: Optional[Class
         inl = ctx.xexpand(fn, arg, depth=1, stop=[n.id for n in ast.walk(arg) if isinstance(n, ast.Name)])
         if isinstance(inl, (ast.ListComp, ast.List, ast.Tuple)):
             arg = inl
+    if isinstance(arg, ast.BinOp) and isinstance(arg.op, ast.Add):
+        # [a, b] + [c]: concatenation of list displays (possibly through locals)
+        parts = []
+        for side in (arg.left, arg.right):
+            side = strip_casts(side)
+            if isinstance(side, ast.Name):
+                side = defs.single(side.id) or side
+            if not isinstance(side, (ast.List, ast.Tuple)):
+                parts = None
+                break
+            parts += list(side.elts)
+        if parts is not None:
+            return [describe_item(ctx, fn, e, owner) for e in parts]
     if isinstance(arg, (ast.List, ast.Tuple)):
         return [describe_item(ctx, fn, e, owner) for e in arg.elts]
     if isinstance(arg, ast.ListComp) and len(arg.generators) == 1 and not arg.generators[0].ifs:
